@@ -38,8 +38,92 @@ func cryptFlowEnroll(s *world.Server, n *world.Node) (*types.NodeInformation, er
 	return ni, nil
 }
 
+// cryptServerFlows: the receiver is the server, its record went through storage. The application recorded
+// the superseded record's pair as the previous one on the node's new record (what a rotation does), stored
+// it, removed the superseded record (normal clean-up) and loads the new record again whenever a message
+// arrives: a message the node encrypted under its old credentials must still come out as the original.
+func cryptServerFlows(e *cryptEnv) {
+	r := e.c.R
+	n := e.c.Pick(24, 240)
+	engine.ForEach(n, engine.Workers(), func(i int) {
+		wrap, removeOld := i%2 == 1, i%4 < 2
+		cs := cryptCase{Kind: "flows", Sender: fmt.Sprintf("server-record-through-storage(storage wrapper=%v, superseded record removed=%v)", wrap, removeOld), Ct: i}
+		p, st := engine.Guard(func() {
+			s := world.MustServer(world.ServerCfg{Backend: world.Inmem, StorageWrap: wrap})
+			defer s.Close()
+			old, err := world.NewNode(false, "")
+			var oldInfo, newInfo *types.NodeInformation
+			if err == nil {
+				oldInfo, err = cryptFlowEnroll(s, old)
+			}
+			var cur *world.Node
+			if err == nil {
+				cur, err = world.NewNode(false, "")
+			}
+			if err == nil {
+				newInfo, err = cryptFlowEnroll(s, cur)
+			}
+			if err != nil {
+				r.Broken("crypt server flows: enrollment: " + err.Error())
+				return
+			}
+			if err := newInfo.SetPreviousEncryptionKey(oldInfo); err != nil {
+				r.Broken("crypt server flows: SetPreviousEncryptionKey: " + err.Error())
+				return
+			}
+			if err := newInfo.Store(s.Ctx, s.Store, s.StoreOpts()...); err != nil {
+				r.Broken("crypt server flows: store: " + err.Error())
+				return
+			}
+			if removeOld {
+				if err := s.RemoveNode(old.K.KeyID); err != nil {
+					r.Broken("crypt server flows: remove: " + err.Error())
+					return
+				}
+			}
+			loaded, err := types.LoadNodeInformation(s.Ctx, s.Store, cur.K.KeyID, s.StoreOpts()...)
+			if err != nil {
+				r.Violation("refused-with-matching-key:flows:server-record-reload", "the record that carries the previous pair does not load again: "+err.Error(), cs)
+				return
+			}
+			r.Eval(engine.J(cs), true)
+			msg := cryptMsg("FetchNodeCredentialsRequest", "rand", int64(i)*613+11)
+			for _, snd := range []struct {
+				what  string
+				creds *types.NodeCredentials
+			}{{"current", cur.Creds}, {"previous", old.Creds}} {
+				env, err := nodeenrollment.EncryptMessage(e.ctx, msg, snd.creds)
+				if err != nil {
+					r.Broken("crypt server flows: encrypt: " + err.Error())
+					return
+				}
+				got := cryptNewMsg("FetchNodeCredentialsRequest")
+				derr := nodeenrollment.DecryptMessage(e.ctx, env, loaded, got)
+				switch {
+				case derr != nil:
+					r.Violation("refused-with-matching-key:flows:server-record-through-storage:"+snd.what, fmt.Sprintf("a message the node encrypted under its %s credentials does not decrypt with the server's record after that record was stored and loaded again (storage wrapper=%v, superseded record removed=%v): %v", snd.what, wrap, removeOld, derr), cs)
+				case !proto.Equal(got, msg):
+					r.Violation("different-plaintext:flows:server-record-through-storage:"+snd.what, "decryption with the reloaded server record returned a different message", cs)
+				default:
+					r.Count("server_flows_reloaded_record_opens:"+snd.what, 1)
+				}
+			}
+		})
+		if p != nil {
+			if f := engine.LibraryFrame(st); f != "" {
+				r.Violation("panic:"+f, fmt.Sprintf("panic in the server flows part: %v", p), cs)
+			} else {
+				r.Broken(fmt.Sprintf("crypt server flows: harness panic: %v\n%s", p, st))
+			}
+		}
+	})
+	r.Require("server_flows_reloaded_record_opens:previous", int64(n*9/10))
+	r.Require("server_flows_reloaded_record_opens:current", int64(n*9/10))
+}
+
 func cryptFlows(e *cryptEnv) {
 	r := e.c.R
+	cryptServerFlows(e)
 	n := e.c.Pick(24, 400)
 	engine.ForEach(n, engine.Workers(), func(i int) {
 		variant := []string{"same-object-enrolled-again", "old-object-enrolled-again-after-being-recorded"}[i%2]
